@@ -38,7 +38,7 @@ def main():
             na.append({'property_id': i, 'reason': PENDING.get(i, 'check not built yet in this session (work in progress; see DESIGN.md section 4 for the plan)')})
     m = {
         'version': 1,
-        'setup_cmd': 'cd /verif/coq && ./mkproject.sh && (timeout 3000 make -k -j16 > /tmp/odak_verif_setup.log 2>&1; tail -3 /tmp/odak_verif_setup.log; true)',
+        'setup_cmd': 'mkdir -p /verif/build && cd /verif/coq && ./mkproject.sh && (timeout 3000 make -k -j16 > /verif/build/setup.log 2>&1; tail -3 /verif/build/setup.log; true)',
         'hooks': {'guard': 'ODAK_VERIF', 'enable': 'no hooks are needed: every observation point is public API; ./check sets ODAK_VERIF=1 for uniformity only',
                   'baseline_off_cmd': 'cd /repo && /venv/bin/python -m pytest -ra -q -p no:cacheprovider --timeout=900 --continue-on-collection-errors',
                   'source_commits': [], 'add_only': True},
